@@ -45,6 +45,16 @@ def bdocs(tier):
             continue
         for b in L2:
             out.append(a + "\n" + b + "\n")
+    # three-line B: a two-line block (table, setext heading, fence, list+continuation) directly followed by a
+    # line that can or cannot interrupt / extend it
+    heads = ["a|b\n-|-", "a\n===", "```\nx", "- a\n  b", "> a\nb", "1. a\n2. b", "a\nb"]
+    tails = ["2. x", "7) x", "-", "- x", "c", "    c", "> c", "|c|d|", "# c", "***", "[c]: /u", "<div>", "```"]
+    for h in heads:
+        for t in tails:
+            out.append(h + "\n" + t + "\n")
+            if tier == "thorough":
+                for pre in ("> ", "- "):
+                    out.append("\n".join(pre + x for x in (h + "\n" + t).split("\n")) + "\n")
     return out
 
 
